@@ -156,7 +156,8 @@ Inductive case :=
 | CExists (c : coll)
 | CAll (c : coll)
 | CIif (c : coll)
-| CAsBool (c : coll).
+| CAsBool (c : coll)
+| COperand (c : coll).       (* an operand form on its own: what it was declared to be *)
 
 Definition outcome := res coll.
 Definition outcome_eqb : outcome -> outcome -> bool := res_eqb coll_eqb.
@@ -172,6 +173,7 @@ Definition model (c : case) : outcome :=
   | CAll c => of_resbool (all_one c)
   | CIif c => of_resbool (iif_one c)
   | CAsBool c => of_resbool (as_bool c)
+  | COperand c => Ok c
   end.
 
 (* ---- the property as a specification over forms ------------------------------ *)
@@ -190,6 +192,7 @@ Definition spec (c : case) : outcome :=
       end
   | CNot c => match form_of c with FTv a => Ok (of_tv (k_not a)) | FMulti => Err end
   | CWhere c | CExists c | CAll c | CIif c | CAsBool c => spec_truthy c
+  | COperand c => Ok c
   end.
 
 Definition holds (c : case) (o : outcome) : bool := outcome_eqb (spec c) o.
